@@ -7,7 +7,7 @@ int64_t w_md5(uint8_t* data, uint64_t n, uint32_t hex, uint32_t from_string, uin
 int64_t w_sha1(uint8_t* data, uint64_t n, uint32_t hex, uint32_t from_string, uint8_t* out, uint64_t cap);
 int64_t w_sha256(uint8_t* data, uint64_t n, uint32_t hex, uint32_t from_string, uint8_t* out, uint64_t cap);
 #define PADDED (((LEN + 8) / 64 + 1) * 64)
-#define MAXB 4
+#define MAXB 6 /* up to 320 padded bytes: message lengths <= 311 */
 static uint8_t blocks[MAXB][64];
 static unsigned nblocks, alg_ok = 1;
 void STUB(verif_hash_block)(uint32_t alg, uint8_t* block) {
